@@ -149,6 +149,7 @@ func c06SigMuts(r *verifh.Rand, in *c06Input) []c06Mut {
 	m = append(m, c06Mut{K: "sig_body", V: c06RandBody(r)})
 	m = append(m, c06Mut{K: "sig_secret", V: r.Pick("SECRE", "SECRET ", "S2", "secret", "")})
 	m = append(m, c06Mut{K: "sig_key", V: r.Pick("AKID", "AK2", "NOPE", "akid", "")})
+	m = append(m, c06Mut{K: "sig_cred", V: r.Pick("NOPE", "", "akid", "AK2"), Name: r.Pick("", "", "SECRET", "S2")}) // unknown id, guessable secret
 	ttl := int(in.Cfg.Sig.TTLs)
 	if ttl == 0 {
 		ttl = 600
